@@ -1084,6 +1084,11 @@ class Engine:
                 s_bad.trace.append('L%d:assert-fails' % node.lineno)
                 e = SExc('AssertionError')
                 e.line = node.lineno
+                if node.msg is not None and not isinstance(node.msg, ast.Constant):
+                    try:
+                        self.ev(node.msg, s_bad)  # the message is evaluated when (and only when) the assertion fails
+                    except PyRaise as r:
+                        e = r.exc
                 outs.append((s_bad, ('raise', e)))
             if feasible(s_ok.pc):
                 outs.append((s_ok, ('next',)))
@@ -1096,6 +1101,8 @@ class Engine:
                 return [(st, ('raise', e))]
             e = self.make_exc(node.exc, st)
             e.line = node.lineno
+            if node.cause is not None:
+                self.ev(node.cause, st)  # `raise X from Y`: Y is evaluated (it may call something, or raise itself)
             return [(st, ('raise', e))]
         if isinstance(node, ast.If):
             c = self.ev_cond(node.test, st)
@@ -1161,8 +1168,9 @@ class Engine:
     def make_exc(self, node, st) -> SExc:
         if isinstance(node, ast.Call):
             name = _dotted(node.func)
-            if name is not None:
-                return SExc(name.split('.')[-1], args=tuple(node.args))
+            if name is not None and isinstance(st.env.get(name, None) if '.' not in name else None, (type(None), SDotted)):
+                # the constructor's arguments are evaluated (left to right) before the exception exists
+                return SExc(name.split('.')[-1], args=tuple(self.ev(a_, st) for a_ in node.args if not isinstance(a_, ast.Starred)))
         if isinstance(node, ast.Name):
             v = st.env.get(node.id)
             if isinstance(v, SExc):
@@ -1610,6 +1618,8 @@ class Engine:
         if isinstance(base, SExc):
             if base.term is not None:
                 return self.attr_of_U(base.term, attr)
+            if attr == 'args':
+                return tuple(base.args)
             return ('boundmethod', base, attr)
         if isinstance(base, z3.ExprRef) and base.sort() == U:
             return self.attr_of_U(base, attr)
@@ -2360,6 +2370,9 @@ class Engine:
 
     def ev_JoinedStr(self, node, st):
         if not self.c.strings:
+            for v in ast.walk(node):
+                if isinstance(v, ast.FormattedValue) and not getattr(self, 'in_spec', False):
+                    self.ev(v.value, st)  # the text is opaque, but evaluating a part may call something or raise
             return z3.Const(fresh_name('fstring'), U)
         parts = []
         for v in node.values:
